@@ -46,7 +46,7 @@ StepOK(r, cmds, steps, k, W) ==
       [] r = "C19.Info" -> c.op = "info" /\ Has(before, NormName(c.name)) =>
             OutLines(s.out) = <<W \o "/" \o before[NormName(c.name)]>>
       [] r = "C19.Resolve" ->
-            /\ c.op = "resolve" /\ Has(before, NormName(c.name)) =>
+            /\ c.op \in {"resolve", "resolveblank"} /\ Has(before, NormName(c.name)) =>
                   s.code = 0 /\ OutLines(s.out)[1] = "Total: " \o NatStr(FileMinutes(before[NormName(c.name)]))
             /\ c.op = "resolvemix" /\ Has(before, NormName(c.name)) =>
                   s.code = 0 /\ OutLines(s.out)[1] = "Total: " \o NatStr(FileMinutes(Files[1]) + FileMinutes(before[NormName(c.name)]))
